@@ -238,33 +238,59 @@ def doc_for_driver(doc):
 # implementation runner
 
 class Impl:
-    """a fresh shared store + importer; every C01 mechanism through the library's own calls"""
+    """a fresh store + importer (shared or disjoint flavour); every C01 mechanism through the library's own calls"""
 
-    def __init__(self):
-        import fim.graph.networkx_property_graph as m
-        self.m = m
-        m.NetworkXGraphStorage.storage_instance = None
-        self.imp = m.NetworkXGraphImporter()
-        self.st = m.NetworkXGraphStorage.storage_instance
+    def __init__(self, disjoint=False):
+        self.disjoint = bool(disjoint)
+        if self.disjoint:
+            import fim.graph.networkx_property_graph_disjoint as m
+            self.m = m
+            m.NetworkXGraphStorageDisjoint.storage_instance = None
+            self.imp = m.NetworkXGraphImporterDisjoint()
+            self.st = m.NetworkXGraphStorageDisjoint.storage_instance
+            self.gclass = m.NetworkXPropertyGraphDisjoint
+            self.px = "d"
+        else:
+            import fim.graph.networkx_property_graph as m
+            self.m = m
+            m.NetworkXGraphStorage.storage_instance = None
+            self.imp = m.NetworkXGraphImporter()
+            self.st = m.NetworkXGraphStorage.storage_instance
+            self.gclass = m.NetworkXPropertyGraph
+            self.px = ""
         self.tmp = tempfile.mkdtemp(prefix="c01-")
         self.nfile = 0
 
     def close(self):
         shutil.rmtree(self.tmp, ignore_errors=True)
-        self.m.NetworkXGraphStorage.storage_instance = None
+        if self.disjoint:
+            self.m.NetworkXGraphStorageDisjoint.storage_instance = None
+        else:
+            self.m.NetworkXGraphStorage.storage_instance = None
 
     def graph(self, gid):
-        return self.m.NetworkXPropertyGraph(graph_id=gid, importer=self.imp)
+        return self.gclass(graph_id=gid, importer=self.imp)
+
+    def nx(self, gid):
+        """the nx.Graph object holding graph gid"""
+        return self.st.graphs[gid] if self.disjoint else self.st.graphs
+
+    def _ge(self, g):
+        return [[[n, attrs_wire(d)] for n, d in g.nodes(data=True)], [[u, v, attrs_wire(d)] for u, v, d in g.edges(data=True)]]
 
     def load_op(self):
-        g = self.st.graphs
-        return ["load", self.st.start_id, [[n, attrs_wire(d)] for n, d in g.nodes(data=True)],
-                [[u, v, attrs_wire(d)] for u, v, d in g.edges(data=True)]]
+        if self.disjoint:
+            return ["dload", [[val(k)] + self._ge(g) for k, g in self.st.graphs.items()],
+                    [[val(k), c] for k, c in self.st.graph_node_ids.items()]]
+        ns, es = self._ge(self.st.graphs)
+        return ["load", self.st.start_id, ns, es]
 
     def dump(self):
-        g = self.st.graphs
-        return {"next": self.st.start_id, "nodes": [[n, attrs_wire(d)] for n, d in g.nodes(data=True)],
-                "edges": [[u, v, attrs_wire(d)] for u, v, d in g.edges(data=True)]}
+        if self.disjoint:
+            return {"graphs": [[val(k)] + self._ge(g) for k, g in self.st.graphs.items()],
+                    "counters": [[val(k), c] for k, c in self.st.graph_node_ids.items()]}
+        ns, es = self._ge(self.st.graphs)
+        return {"next": self.st.start_id, "nodes": ns, "edges": es}
 
     def serialize(self, gid, fmt):
         from fim.graph.abc_property_graph import GraphFormat
@@ -289,6 +315,11 @@ class Impl:
             return self.imp.import_graph_from_file_direct(graph_file=self.write(text)).graph_id
         raise ValueError(entry)
 
+    def has_graph(self, gid):
+        if self.disjoint:
+            return gid in self.st.graphs and len(self.st.graphs[gid]) > 0
+        return self.st.extract_graph(gid) is not None
+
 
 ENTRIES = ("string", "file", "string_direct", "file_direct")
 
@@ -296,8 +327,10 @@ ENTRIES = ("string", "file", "string_direct", "file_direct")
 def snapshot(st, gid):
     """canonical content of one graph: nodes keyed by NodeID (typed values, GraphID dropped),
     edges as unordered NodeID pairs with their typed properties"""
+    if hasattr(st, "graph_node_ids") and gid not in st.graphs:
+        return None                      # disjoint flavour: do not let the defaultdict create an entry
     g = st.extract_graph(gid)
-    if g is None:
+    if g is None or len(g) == 0:
         return None
 
     def tv(v):
@@ -399,7 +432,7 @@ def gen_raw_spec(rng, maxn=8, maxe=12, maxp=6, maxlen=24, floats=False, nid_adve
         for _ in range(rng.randrange(0, maxp + 1)):
             if rng.random() < 0.12:
                 name = rng.choice(JSON_PROP_NAMES)
-                v = rng.choice(['{"core": 4}', '{"bdf": "0000:25:00.0"}', "", "None", '{"a": "<&>"}', '[1, 2]'])
+                v = rng.choice(['{"core": 4}', '{"bdf": "0000:25:00.0"}', "", "None", '{"a": "<&>"}', '[1, 2]', '{"core": 4}', "{bad json", 7])
             else:
                 name = rng.choice(PROP_NAMES)
                 v = gen_value(rng, maxlen, floats)
@@ -444,14 +477,14 @@ def spec_values(spec):
         yield nid
 
 
-def gen_topology(rng, kind=None, maxlen=24):
+def gen_topology(rng, kind=None, maxlen=24, importer=None):
     """an ExperimentTopology / SubstrateTopology built through the public API; returns the topology"""
     import fim.user as f
     from fim.slivers.capacities_labels import Capacities, Labels
     kind = kind or rng.choice(["slice", "slice", "slice", "substrate"])
     sites = ["RENC", "UKY", "LBNL", "STAR"]
     if kind == "slice":
-        t = f.ExperimentTopology()
+        t = f.ExperimentTopology(importer=importer)
         nn = rng.randrange(1, 5)
         ifs = []
         for i in range(nn):
@@ -502,7 +535,7 @@ def gen_topology(rng, kind=None, maxlen=24):
             except Exception:
                 pass
         return t
-    t = f.SubstrateTopology()
+    t = f.SubstrateTopology(importer=importer)
     site = rng.choice(sites)
     nn = rng.randrange(1, 3)
     sw = t.add_node(name="dp-sw", site=site, node_id="sw-%d" % rng.randrange(10 ** 6), ntype=f.NodeType.Switch,
